@@ -13,12 +13,6 @@ class TransitionDipoleMoment(SelfAdjointOperator, BasisManaged):
     def __init__(self, dim=None, data=None):
         
         if not ((dim is None) and (data is None)):        
-            # Set the currently used basis
-            cb = self.manager.get_current_basis()
-            self.set_current_basis(cb)
-            # unless it is the basis outside any context
-            if cb != 0:
-                self.manager.register_with_basis(cb,self) 
     
             if data is None:
                 self._data = numpy.zeros((dim,dim,3), dtype=REAL)  
@@ -29,6 +23,14 @@ class TransitionDipoleMoment(SelfAdjointOperator, BasisManaged):
             if not self.check_selfadjoint():
                 raise Exception("The data of this operator have"
                 +" to be represented by 3 selfadjoint matrices") 
+                
+            # Set the currently used basis (only an object with valid
+            # data takes part in the basis management)
+            cb = self.manager.get_current_basis()
+            self.set_current_basis(cb)
+            # unless it is the basis outside any context
+            if cb != 0:
+                self.manager.register_with_basis(cb,self) 
          
  
     def check_selfadjoint(self):
